@@ -381,3 +381,41 @@ pub fn uf_powi(x: f64, n: i32) -> f64 {
 pub fn uf_sin_cos(x: f64) -> (f64, f64) {
     (mix(x.to_bits(), 6), mix(x.to_bits(), 7))
 }
+
+// ---- S-ACC (indexed accessors k/x/y/lat/lon): answered from harness-owned cells; `set_acc`
+// also fills the real map so that a native replay (stubs not applied) sees the same values.
+pub static mut ACC_K: f64 = 1.0;
+pub static mut ACC_X: f64 = 0.0;
+pub static mut ACC_Y: f64 = 0.0;
+pub static mut ACC_LAT: f64 = 0.0;
+pub static mut ACC_LON: f64 = 0.0;
+
+pub fn set_acc(p: &mut ParsedParameters, k: f64, x: f64, y: f64, lat: f64, lon: f64) {
+    unsafe {
+        ACC_K = k;
+        ACC_X = x;
+        ACC_Y = y;
+        ACC_LAT = lat;
+        ACC_LON = lon;
+    }
+    p.real.insert("k_0", k);
+    p.real.insert("x_0", x);
+    p.real.insert("y_0", y);
+    p.real.insert("lat_0", lat);
+    p.real.insert("lon_0", lon);
+}
+pub fn acc_k(_p: &ParsedParameters, _i: usize) -> f64 {
+    unsafe { ACC_K }
+}
+pub fn acc_x(_p: &ParsedParameters, _i: usize) -> f64 {
+    unsafe { ACC_X }
+}
+pub fn acc_y(_p: &ParsedParameters, _i: usize) -> f64 {
+    unsafe { ACC_Y }
+}
+pub fn acc_lat(_p: &ParsedParameters, _i: usize) -> f64 {
+    unsafe { ACC_LAT }
+}
+pub fn acc_lon(_p: &ParsedParameters, _i: usize) -> f64 {
+    unsafe { ACC_LON }
+}
